@@ -15,6 +15,13 @@ Theorem C02_accept_iff_mac : forall data mac n k,
   mac = Poly1305Impl.mac (firstn 32 (xsalsa20 k n (32 + length data))) data.
 Proof. exact sb_open_accept_iff. Qed.
 
+(* the copying open: the verdict is a function of the authenticator, the ciphertext received, the nonce and the key --
+   whatever the caller's buffer holds and however long it is; so cutting bytes off a ciphertext cannot be made up for by
+   what the receiver's buffer already contains *)
+Theorem C02_verdict_ignores_the_buffer : forall mbuf mac c n k, (length c <= length mbuf)%nat ->
+  (fst (open_detached_c mbuf mac c n k) = Ok tt <-> mac = Poly1305Impl.mac (firstn 32 (xsalsa20 k n (32 + length c))) c).
+Proof. exact sb_open_detached_verdict. Qed.
+
 Theorem C02_tag_tamper_rejected : forall m n k mac',
   mac' <> snd (detached_inplace_c m n k) ->
   fst (open_detached_inplace_c (fst (detached_inplace_c m n k)) mac' n k) = Err.
